@@ -67,13 +67,17 @@ def run(ctx):
             if d:
                 disagreements.append(dict(what="%s-endian encoding: %s" % (mode, d[0]), file=data.hex()))
             c = content_of(r)
+            if isinstance(c, dict) and r.get("ok"):
+                # the lazy API decodes through other code paths (per-channel reads of contiguous / interleaved / DAQmx chunks)
+                from props.C02 import lazy_content
+                c = dict(c, lazy=lazy_content(data, nptdms))
             if ref is None:
                 ref = (mode, c, data)
             elif c != ref[1]:
                 what = "%s-endian encoding reads differently from the little-endian encoding of the same content" % mode
                 if isinstance(c, dict) and isinstance(ref[1], dict):
-                    for k in ("objects", "channels", "groups"):
-                        if c[k] != ref[1][k]:
+                    for k in ("objects", "channels", "groups", "lazy"):
+                        if c.get(k) != ref[1].get(k):
                             what += " (%s: %s vs %s)" % (k, str(c[k])[:160], str(ref[1][k])[:160])
                             break
                 else:
